@@ -25,6 +25,8 @@ type FileGenOpts struct {
 	// the same one or two fields, and the phases use different fields (an activity that records heart
 	// rate first, cadence later ...).
 	Phased bool
+	// PhasedLong: 4500-9000 messages instead of 600-1100.
+	PhasedLong bool
 	// OutOfDomain: also produce strings longer than the field and arrays longer than the profile length.
 	OutOfDomain bool
 	// MaxFieldsSet bounds the number of fields set per message (0: no bound). Messages whose
@@ -265,6 +267,9 @@ func GenFile(rng *Rand, o FileGenOpts) *fit.File {
 		n := rng.Intn(max + 1)
 		if o.Phased && len(prof.ByMesg[s.Global]) >= 4 {
 			n = 600 + rng.Intn(500)
+			if o.PhasedLong {
+				n = 4500 + rng.Intn(4500)
+			}
 			fields := prof.ByMesg[s.Global]
 			var phase []*ref.PField
 			left := 0
